@@ -330,6 +330,33 @@ func runC05Proto(r *rep.R, idx *int64) {
 		cfg := histCfg{Suite: suite, InSession: false, Ops: []int{op}, Horizon: 6, Alphabet: "nasty"}
 		histExploreWith(r, "C05", cfg, 1, idx, c05ProtoJudge)
 	}
+	// complete, cryptographically valid handshakes whose Open Session Response
+	// carries every value of the (unauthenticated) maximum-privilege byte
+	for v := 0; v < 256; v++ {
+		*idx++
+		if !r.Mine(*idx) {
+			continue
+		}
+		cfg := defaultConfig()
+		pv := byte(v)
+		cfg.OpenRspPriv = &pv
+		cfg.OpenRspPrivRaw = true
+		w := newWorld(cfg, nil, nil)
+		p := guard(func() {
+			if s, err := w.Conn.NewV2Session(w.Ctx, &bmc.V2SessionOpts{SessionOpts: bmc.SessionOpts{Username: "c05", Password: cfg.Password, MaxPrivilegeLevel: ipmi.PrivilegeLevelOperator}, CipherSuites: []ipmi.CipherSuite{ipmi.CipherSuite3}}); err == nil {
+				s.GetDeviceID(w.Ctx)
+				s.Close(w.Ctx)
+			}
+		})
+		r.Eval(rep.H("osr-priv", v), true)
+		r.Trace()
+		if p != "" {
+			r.Outcome("violation")
+			r.Violate("C05/protocol/panic/"+siteKey(p), fmt.Sprintf("handshake with privilege byte %#02x in the Open Session Response: %s", v, p), "c05osrpriv", map[string]int{"priv": v}, nil)
+		} else {
+			r.Outcome("handshake-with-odd-privilege-byte:no-panic")
+		}
+	}
 	// every completion code on a matching reply (the code ends up in error
 	// texts and metric labels)
 	for _, inSess := range []bool{true, false} {
